@@ -45,11 +45,11 @@ NullBlk == [file |-> 0, index |-> 0, flags |-> {}, data |-> <<>>, size |-> 0, cs
 (* ---------------- worker: process_block ---------------- *)
 Process(b) ==
   IF b.size = 0 THEN b
-  ELSE IF "IGNORE_SPARSE" \notin b.flags /\ (SparseCheckOnFragBlock \/ "FRAGMENT_BLOCK" \notin b.flags)
+  ELSE IF ("IGNORE_SPARSE" \notin b.flags \/ Dev = "IgnoreNoSparse") /\ (SparseCheckOnFragBlock \/ "FRAGMENT_BLOCK" \notin b.flags)
           /\ AllZero(b.data)
        THEN [b EXCEPT !.flags = @ \cup {"IS_SPARSE"}]
   ELSE LET b1 == [b EXCEPT !.csum = HashData(b.data)] IN
-       IF "IS_FRAGMENT" \in b.flags \/ "DONT_COMPRESS" \in b.flags THEN b1
+       IF "IS_FRAGMENT" \in b.flags \/ ("DONT_COMPRESS" \in b.flags /\ Dev # "IgnoreDontCompress") THEN b1
        ELSE LET r == CompUnits(b.data) IN
             IF r < b.size /\ Dev # "NeverCompress"
             THEN [b1 EXCEPT !.size = r, !.flags = @ \cup {"COMPRESSED"}] ELSE b1
@@ -222,7 +222,7 @@ EndFile(s) ==
   LET s1 ==
     IF ~s.hasCur
     THEN (IF "FIRST" \notin s.blkFlags THEN Sentinel(s) ELSE s)            \* empty file: nothing at all
-    ELSE IF "DONT_FRAGMENT" \in s.blkFlags \/ Dev = "TailPackNever"
+    ELSE IF ("DONT_FRAGMENT" \in s.blkFlags /\ Dev # "IgnoreDontFragment") \/ Dev = "TailPackNever"
          THEN Enqueue([s EXCEPT !.hasCur = FALSE], [s.cur EXCEPT !.flags = @ \cup {"LAST"}])
          ELSE LET s2 == IF "FIRST" \notin s.cur.flags THEN Sentinel(s) ELSE s IN
               IF s2.err THEN s2
@@ -321,20 +321,30 @@ StoredNotLarger == \A k \in 1..Len(T.wb) : /\ T.wb[k].size <= Units(T.wb[k].data
                                             /\ T.wb[k].size <= B
 FragTableSane == done => \A k \in 1..Len(T.ftbl) : T.ftbl[k].size > 0
                                                    /\ \E j \in 1..Len(T.wb) : T.wb[j].off = T.ftbl[k].loc /\ T.wb[j].size = T.ftbl[k].size
-Sharing == done => \A f, g \in 1..Len(input) :
-              (f < g /\ Expected(f) = Expected(g) /\ input[f].flags = {} /\ input[g].flags = {} /\ Expected(f) # <<>>)
-              => (T.ino[f].start = T.ino[g].start /\ T.ino[f].fidx = T.ino[g].fidx /\ T.ino[f].foff = T.ino[g].foff
-                  /\ T.ino[f].blocks = T.ino[g].blocks)
+SameStorage(f, g) == /\ T.ino[f].start = T.ino[g].start /\ T.ino[f].fidx = T.ino[g].fidx /\ T.ino[f].foff = T.ino[g].foff
+                     /\ T.ino[f].blocks = T.ino[g].blocks
+(* a flag-free file that repeats an earlier flag-free file shares its storage with some earlier file of  *)
+(* the same content (not necessarily the first: a dont_deduplicate twin in between re-registers the chunk) *)
+Sharing == done => \A g \in 1..Len(input) :
+              (input[g].flags = {} /\ Expected(g) # <<>> /\ \E f \in 1..(g - 1) : Expected(f) = Expected(g) /\ input[f].flags = {})
+              => \E h \in 1..(g - 1) : Expected(h) = Expected(g) /\ SameStorage(h, g)
 StoredBlocksOf(s, f) ==       \* indices into wb of the stored blocks of file f (by position walk)
   LET i == s.ino[f] IN {k \in 1..Len(s.wb) : s.wb[k].off >= i.start /\ i.blocks # <<>>}
 FlagsHonoured == done => \A f \in 1..Len(input) :
   LET fl == input[f].flags  i == T.ino[f] IN
   /\ ("DONT_FRAGMENT" \in fl => i.fidx = NoFrag)
-  /\ ("DONT_COMPRESS" \in fl => /\ \A k \in 1..Len(i.blocks) : ~i.blocks[k][2]
-                                /\ (i.fidx # NoFrag => ~T.ftbl[i.fidx + 1].comp))
+  /\ ("DONT_COMPRESS" \in fl => \A k \in 1..Len(i.blocks) : ~i.blocks[k][2])
   /\ ("IGNORE_SPARSE" \in fl => (i.sparse = 0 /\ \A k \in 1..Len(i.blocks) : i.blocks[k][1] # 0))
   /\ ("DONT_FRAGMENT" \notin fl /\ input[f].tail # <<>> /\ ~("IGNORE_SPARSE" \notin fl /\ AllZero(input[f].tail))
         => i.fidx # NoFrag)
   /\ Len(i.blocks) = Len(input[f].blocks) + (IF input[f].tail # <<>> /\ i.fidx = NoFrag THEN 1 ELSE 0)
+(* dont_compress: "if tail-end packing is performed, the entire fragment block is left uncompressed"  *)
+FragShared(f) == \E g \in 1..(f - 1) : T.ino[g].fidx = T.ino[f].fidx /\ T.ino[g].foff = T.ino[f].foff
+FlagDontCompressFrag == done => \A f \in 1..Len(input) :
+   ("DONT_COMPRESS" \in input[f].flags /\ T.ino[f].fidx # NoFrag) => ~T.ftbl[T.ino[f].fidx + 1].comp
+(* ... the same, except for a tail that was deduplicated against an earlier file's fragment (known finding) *)
+FlagDontCompressFragOwn == done => \A f \in 1..Len(input) :
+   ("DONT_COMPRESS" \in input[f].flags /\ T.ino[f].fidx # NoFrag /\ ~FragShared(f)) => ~T.ftbl[T.ino[f].fidx + 1].comp
 Safety == NoError /\ DataIntegrity /\ NoLeak /\ StoredNotLarger /\ FragTableSane /\ Sharing /\ FlagsHonoured
+          /\ FlagDontCompressFragOwn
 =============================================================================
